@@ -122,27 +122,45 @@ Definition EK (t : table) (defs : list (str * str)) : Prop :=
   def_type (set_defs (t_defs t) defs) (hashk (t_ks t)) = def_type (t_defs t) (hashk (t_ks t)) /\
   (rangek (t_ks t) = [] \/ def_type (set_defs (t_defs t) defs) (rangek (t_ks t)) = def_type (t_defs t) (rangek (t_ks t))).
 
-Definition TK (t : table) : Prop := TInv t /\ KInv t.
+Definition TK (t : table) : Prop := TInv t /\ KInv t /\ secondary (t_ks t) = false.
+
+Lemma ks_put c t it cond names vals : t_ks (fst (t_put lang_match c t it cond names vals)) = t_ks t.
+Proof.
+  unfold t_put. destruct (get_key _ _ _); cbn; auto. destruct (check_cond _ _ _ _ _ _ _) as [[[] f]| | |]; cbn; auto.
+  destruct (validate_index_keys _ _ _); reflexivity.
+Qed.
+
+Lemma ks_update c t k e cond names vals : t_ks (fst (t_update lang_match lang_update c t k e cond names vals)) = t_ks t.
+Proof.
+  unfold t_update. destruct (get_key _ _ _); cbn; auto. destruct (check_cond _ _ _ _ _ _ _) as [[[] f]| | |]; cbn; auto.
+  destruct (interp_update _ _ _ _ _ _ _) as [[it' f']| | |]; cbn; auto. destruct (validate_index_keys _ _ _); reflexivity.
+Qed.
+
+Lemma ks_delete c t k cond names vals : t_ks (fst (t_delete lang_match c t k cond names vals)) = t_ks t.
+Proof.
+  unfold t_delete. destruct (get_key _ _ _); cbn; auto. destruct (check_cond _ _ _ _ _ _ _) as [[[] f]| | |]; cbn; auto.
+  destruct (lookup _ _); cbn; auto. destruct (Nat.eqb _ _); reflexivity.
+Qed.
 
 Theorem KInv_reachable ops cn tn c t :
   run_env EK (UK lang_update) lang_match lang_update flavour [] ops ->
   lookup cn (fst (run lang_match lang_update flavour [] ops)) = Some c ->
-  lookup tn (c_tables c) = Some t -> TInv t /\ KInv t.
+  lookup tn (c_tables c) = Some t -> TInv t /\ KInv t /\ secondary (t_ks t) = false.
 Proof.
   apply (P_reachable TK EK (UK lang_update) lang_match lang_update flavour).
-  - intros c0 t0 it cond names vals [H1 H2]. split; [now apply TInv_put|now apply KInv_put].
-  - intros c0 t0 k e cond names vals [H1 H2] Hu. split; [now apply TInv_update|now apply KInv_update].
-  - intros c0 t0 k cond names vals [H1 H2]. split; [now apply TInv_delete|now apply KInv_delete].
-  - intros t0 _. split; [apply TInv_clear|]. intros k it L. discriminate.
-  - intros n ks defs. split; [split; cbn; [apply wf_nil|reflexivity]|]. intros k it L. discriminate.
-  - intros t0 ppr d t' [H1 H2] Ea. unfold add_global_index in Ea.
+  - intros c0 t0 it cond names vals [H1 [H2 H3]]. split; [now apply TInv_put|split; [now apply KInv_put|now rewrite ks_put]].
+  - intros c0 t0 k e cond names vals [H1 [H2 H3]] Hu. split; [now apply TInv_update|split; [now apply KInv_update|now rewrite ks_update]].
+  - intros c0 t0 k cond names vals [H1 [H2 H3]]. split; [now apply TInv_delete|split; [now apply KInv_delete|now rewrite ks_delete]].
+  - intros t0 [_ [_ H3]]. split; [apply TInv_clear|split; [|exact H3]]. intros k it L. discriminate.
+  - intros n h r defs. split; [split; cbn; [apply wf_nil|reflexivity]|split; [|reflexivity]]. intros k it L. discriminate.
+  - intros t0 ppr d t' [H1 [H2 H3]] Ea. unfold add_global_index in Ea.
     destruct (negb ppr && negb (id_throughput d)); [discriminate|].
-    destruct (check_schema _ _ _) as [[h r]|]; [|discriminate]. inversion Ea; subst. split; [exact H1|exact H2].
-  - intros t0 d t' [H1 H2] _ Ea. unfold add_local_index in Ea.
-    destruct (check_schema _ _ _) as [[h r]|]; [|discriminate]. inversion Ea; subst. split; [exact H1|exact H2].
-  - intros t0 defs [H1 H2] [E1 E2]. split; [exact H1|].
+    destruct (check_schema _ _ _) as [[h r]|]; [|discriminate]. inversion Ea; subst. split; [exact H1|split; [exact H2|exact H3]].
+  - intros t0 d t' [H1 [H2 H3]] _ Ea. unfold add_local_index in Ea.
+    destruct (check_schema _ _ _) as [[h r]|]; [|discriminate]. inversion Ea; subst. split; [exact H1|split; [exact H2|exact H3]].
+  - intros t0 defs [H1 [H2 H3]] [E1 E2]. split; [exact H1|split; [|exact H3]].
     intros k it L. cbn [t_data t_ks t_defs] in *. rewrite (get_key_defs_agree (t_ks t0) (t_defs t0)); auto.
-  - intros t0 n [H1 H2]. split; [exact H1|exact H2].
+  - intros t0 n [H1 [H2 H3]]. split; [exact H1|split; [exact H2|exact H3]].
 Qed.
 
 End Reach.
